@@ -340,6 +340,9 @@ func genSynth(prog *Program, p *Pkg) (string, error) {
 	var body strings.Builder
 	body.WriteString(synthPrelude)
 	for _, sf := range p.Spec {
+		for _, td := range sf.Types {
+			fmt.Fprintf(&body, "type %s\n", td)
+		}
 		for _, gh := range sf.Ghosts {
 			fmt.Fprintf(&body, "var %s %s\n", gh[0], gh[1])
 		}
